@@ -9,6 +9,7 @@ import props.c03_hare as c03_hare
 
 ID = 'C04'
 ZERO_LABELS = True      # a share of the cases is asked with candidates numbered from 0 (harness/common.py LABEL_MODE)
+NO_LABEL_STREAMS = ('hare-oracle',)      # a recorded draw tape replays only under the labels it was recorded with (as in c03.py)
 LEVEL = 'proof'
 TIE = c03.TIE
 RULE = ('corpus; ranked profiles as in C03 (2..6 candidates, truncation, shared ranks 20 %), 1<=n<=|C|, quota in {droop, hare}, '
